@@ -275,18 +275,47 @@ def site_defs(site):
                 if f in site.calls or f in site.list_calls:
                     entries.append(('c', n, st.lineno))
 
+    # Three behaviour-preserving rewrites of an `if` are undone before naming, when (and only when) the committed baseline
+    # knows the guard in its other form, so that the model's hand-written control flow keeps referring to the same guards:
+    #   (A) `if a and b:` (no else)            <->  baseline has the separate guards `a`, `b` of `if a: if b:`
+    #   (B) `if a: if b:` (no else, no sibling) <->  baseline has the single guard `a and b`
+    #   (C) `if not X: B else: A`              <->  baseline has the guard `X` of `if X: A else: B`
+    base_guards = set(t[2:] for _, t in (BASELINE.get(site.name) or []) if t.startswith('g:'))
+
+    def txt(e):
+        return ast.unparse(e).replace('\n', ' ')
+
+    def guard(st, depth):
+        test, body, orelse = st.test, st.body, st.orelse
+        if isinstance(st, ast.If) and base_guards and txt(test) not in base_guards:
+            if not orelse and isinstance(test, ast.BoolOp) and isinstance(test.op, ast.And) and all(txt(v) in base_guards for v in test.values):
+                for v in test.values:                                                       # (A)
+                    entries.append(('g', v, st.lineno))
+                    skel.append('%sIf' % ('  ' * depth)); depth += 1
+                visit(body, depth)
+                return
+            if (not orelse and len(body) == 1 and isinstance(body[0], ast.If) and not body[0].orelse
+                    and txt(ast.BoolOp(op=ast.And(), values=[test, body[0].test])) in base_guards):
+                entries.append(('g', ast.BoolOp(op=ast.And(), values=[test, body[0].test]), st.lineno))   # (B)
+                skel.append('%sIf' % ('  ' * depth))
+                visit(body[0].body, depth + 1)
+                return
+            if orelse and isinstance(test, ast.UnaryOp) and isinstance(test.op, ast.Not) and txt(test.operand) in base_guards:
+                test, body, orelse = test.operand, orelse, body                             # (C)
+        entries.append(('g', test, st.lineno))
+        skel.append('%s%s' % ('  ' * depth, type(st).__name__))
+        visit(body, depth + 1)
+        if orelse:
+            skel.append('%selse' % ('  ' * depth))
+            visit(orelse, depth + 1)
+
     # source order walk
     def visit(stmts, depth):
         for st in stmts:
             if isinstance(st, (ast.Expr, ast.Return, ast.Assign)):
                 calls_in(st)
             if isinstance(st, (ast.If, ast.While)):
-                entries.append(('g', st.test, st.lineno))
-                skel.append('%s%s' % ('  ' * depth, type(st).__name__))
-                visit(st.body, depth + 1)
-                if st.orelse:
-                    skel.append('%selse' % ('  ' * depth))
-                    visit(st.orelse, depth + 1)
+                guard(st, depth)
             elif isinstance(st, (ast.Assign, ast.AugAssign, ast.Return)):
                 val = st.value
                 if val is None:
